@@ -35,10 +35,10 @@ type Int struct {
 	Name   string
 }
 
-func K(v int64) Int              { return Int{Lo: v, Hi: v} }
-func Range(lo, hi int64) Int     { return Int{Lo: lo, Hi: hi} }
-func (i Int) IsConst() bool      { return !i.Top && i.Lo == i.Hi }
-func (i Int) Const() int64       { return i.Lo }
+func K(v int64) Int                    { return Int{Lo: v, Hi: v} }
+func Range(lo, hi int64) Int           { return Int{Lo: lo, Hi: hi} }
+func (i Int) IsConst() bool            { return !i.Top && i.Lo == i.Hi }
+func (i Int) Const() int64             { return i.Lo }
 func (i Int) within(lo, hi int64) bool { return !i.Top && i.Lo >= lo && i.Hi <= hi }
 
 // InputInt makes the idx-th integer input restricted to [lo,hi].
